@@ -55,6 +55,7 @@ type Hist struct {
 	Prop  string // "C10" or "C11": which oracle reports violations
 	Lines []string
 
+	lastGap   int64                     // ONT balance - recorded stakes after the previous operation
 	deposited map[common.Address]uint64 // cumulative ONT moved addr -> governance
 	withdrawn map[common.Address]uint64 // cumulative ONT moved governance -> addr (penalty payouts excluded)
 }
@@ -98,7 +99,11 @@ func (h *Hist) CheckC11(before, after *GovState, op *Op, res TxResult) {
 	}
 	// (1) conservation: ONT held by the contract == recorded total stakes + penalty stakes
 	total, penalty := after.SumStake()
-	if after.OntGov != total+penalty {
+	gap := int64(after.OntGov) - int64(total+penalty)
+	if gap != 0 && gap == h.lastGap {
+		r.Count("c11/conservation_still_broken_by_earlier_op") // already reported at the operation that opened the gap
+	}
+	if gap != 0 && gap != h.lastGap {
 		dir := "governance-holds-less-than-recorded"
 		if after.OntGov > total+penalty {
 			dir = "governance-holds-more-than-recorded"
@@ -107,6 +112,7 @@ func (h *Hist) CheckC11(before, after *GovState, op *Op, res TxResult) {
 			fmt.Sprintf("ONT.balanceOf(governance)=%d but sum(TotalStake)=%d + sum(PenaltyStake)=%d = %d after %s", after.OntGov, total, penalty, total+penalty, op.String()),
 			map[string]interface{}{"ont_balance": after.OntGov, "sum_total_stake": total, "sum_penalty": penalty, "before_balance": before.OntGov})
 	}
+	h.lastGap = gap
 	r.Count("c11/conservation_checked")
 	if penalty > 0 {
 		r.Count("c11/conservation_checked_with_penalty_stake")
